@@ -14,6 +14,9 @@ from concurrent.futures import ThreadPoolExecutor
 
 REPO = os.environ.get("VERIF_REPO", "/repo")
 VERIF = os.path.dirname(os.path.abspath(__file__))
+# development aid (mutation self-tests): build output / evidence / replays can be redirected so that
+# a run against a scratch tree (VERIF_REPO) never touches the registered checks' files
+OUT = os.environ.get("VERIF_OUT", VERIF)
 GUARD = "IAUTHD_C_VERIF"
 
 VARIANTS = {
@@ -58,7 +61,7 @@ def _incdirs(out):
 
 
 def fresh_dir(name):
-    out = os.path.join(VERIF, "build", name)
+    out = os.path.join(OUT, "build", name)
     shutil.rmtree(out, ignore_errors=True)
     os.makedirs(out)
     return out
